@@ -118,6 +118,13 @@ Definition easter_ord (year : Z) : res Z :=
   | None => Err EValue
   end.
 
+(* lines 1255-1259: eyday = index of Easter Sunday in the year's mask *)
+Definition build_eastermask (eyday ylen : Z) (offs : list Z) : res (list Z) :=
+  fold_res (fun mask offset =>
+              if (0 <=? eyday + offset) && (eyday + offset <? ylen + 7)
+              then py_set mask (eyday + offset) 1 else Ok mask)
+           offs (py_repeat 0 (ylen + 7)).
+
 Definition rebuild (rl : rule) (ii : iinfo) (year month : Z) : res iinfo :=
   (* 1132-1221 *)
   do ii1 <-
@@ -159,10 +166,7 @@ Definition rebuild (rl : rule) (ii : iinfo) (year month : Z) : res iinfo :=
     (if truthy (byeaster rl) then
        do eo <- easter_ord year;
        let eyday := eo - yearordinal ii1 in
-       do m <- fold_res (fun mask offset =>
-                 if (0 <=? eyday + offset) && (eyday + offset <? yearlen ii1 + 7)
-                 then py_set mask (eyday + offset) 1 else Ok mask)
-               (opt_list (byeaster rl)) (py_repeat 0 (yearlen ii1 + 7));
+       do m <- build_eastermask eyday (yearlen ii1) (opt_list (byeaster rl));
        Ok (Some m)
      else Ok (eastermask ii1));
   Ok (mkII (Some year) (Some month') (yearlen ii1) (nextyearlen ii1) (yearordinal ii1)
